@@ -222,6 +222,7 @@ def close_fd(fd):
         os.close(fd)
     except OSError:
         pass
+    log("closed fd %d" % fd)          # "closed fd 1": this instance can never send anything again
     if fd == 1:
         stdout_open = False
 
